@@ -7,7 +7,7 @@ use cw20::Cw20ReceiveMsg;
 use haloswap::asset::{Asset, AssetInfo, PairInfo};
 use haloswap::pair::{ReverseSimulationResponse, SimulationResponse};
 
-use crate::bignat::{n, N};
+use crate::bignat::{n, z, N, Z};
 use crate::cover::{lg, Cover};
 use crate::ops::*;
 use crate::orc_factory::{classify, role_of, satisfies};
@@ -188,9 +188,9 @@ impl Sim {
             ),
         );
         let attrs = wasm_attrs(o.responses(), &p.addr, "swap");
-        let gained = delta.bal_post(&ka, sender).map(|v| v as i128 - pre_recv as i128).unwrap_or(0);
+        let gained = delta.bal_post(&ka, sender).map(|v| Z::diff(v, pre_recv)).unwrap_or_else(Z::zero);
         let mut bad = vec![];
-        if gained != q.return_amount.u128() as i128 {
+        if gained != z(q.return_amount.u128()) {
             bad.push(format!("received {} vs simulated {}", gained, q.return_amount));
         }
         if let Some(m) = attrs.first() {
